@@ -181,7 +181,7 @@ func entryParam(x *ssa.Parameter, a *reloadAnchors) bool {
 		return false
 	}
 	tn := eng.TypeName(x.Type())
-	if tn == a.lsType || tn == mainPkg+".OutlineServer" {
+	if tn == a.lsType || tn == a.serverT {
 		return false
 	}
 	switch x.Type().Underlying().(type) {
@@ -507,13 +507,13 @@ func ruleBind(c *Ctx, a *reloadAnchors) {
 			}
 		}
 		if st.svc == nil && st.list != nil {
-			if mk := originCall(c, st.list, "service.NewCipherList", mainPkg+".newCipherListFromConfig"); mk != nil {
+			if mk := originCall(c, st.list, "service.NewCipherList", mainM(c).name(mainM(c).newList)); mk != nil {
 				if carriedAcrossIterations(c, st.list, mk) {
 					st.stale = "key list"
 				}
 				st.mk, st.mkAt, st.list = mk, mk, nil
 				st.mkLoops = append(st.mkLoops, enclosing(mk)...)
-				if eng.CalleeName(&mk.Call) == mainPkg+".newCipherListFromConfig" {
+				if eng.CalleeName(&mk.Call) == mainM(c).name(mainM(c).newList) {
 					st.keyInput = mk.Call.Args[0]
 				} else {
 					for _, r := range *mk.Referrers() {
@@ -668,7 +668,7 @@ func ruleBind(c *Ctx, a *reloadAnchors) {
 			continue
 		}
 		n := eng.CalleeName(&call.Call)
-		if n != "service.NewCipherList" && n != mainPkg+".newCipherListFromConfig" {
+		if n != "service.NewCipherList" && n != mainM(c).name(mainM(c).newList) {
 			continue
 		}
 		uses := 0
@@ -690,7 +690,7 @@ func ruleBind(c *Ctx, a *reloadAnchors) {
 		ksrc := rangeSources(c, mu.Key, nil)
 		c.CheckAt("BIND", short(s)+":legacy-list-filed-under-its-own-port", mu, len(ksrc) > 0, "the legacy per-port list is not filed under the port of the key being processed")
 	})
-	dedupFn := p.Fn(mainPkg + ".newCipherListFromConfig")
+	dedupFn := mainM(c).newList
 	for _, cl := range sreg.Calls() {
 		call, ok := cl.(*ssa.Call)
 		if !ok || eng.CalleeName(&call.Call) != "(*container/list.List).PushBack" || call.Parent() == dedupFn {
@@ -706,7 +706,7 @@ func ruleBind(c *Ctx, a *reloadAnchors) {
 // C09.DEDUP
 func ruleDedup(c *Ctx, a *reloadAnchors) {
 	p := c.P
-	f := p.Fn(mainPkg + ".newCipherListFromConfig")
+	f := mainM(c).newList
 	if f == nil {
 		c.Undecided("DEDUP", "anchor:newCipherListFromConfig", "-", "per-service key-list builder not found")
 		return
